@@ -25,6 +25,7 @@ META = {
                     'from the repository; a unit missing from it is reported as uncovered, not as a violation'],
 }
 META['bounds'].append('after 5 kinds of user declarations (clashing symbols in other types / classes / currencies, further units, a further temperature converter): 8 catalogue symbols, temperature equivalents')
+META['bounds'].append('unit quotients u/v, v/u, u/v for every in-type pair; an unregistered temperature-difference table')
 
 
 def setup(mode):
